@@ -31,6 +31,6 @@ for d in sorted(os.listdir(f"{V}/seeded")):
         res[d] = {"status": status, "exit": r.returncode, "report": [l.strip()[:260] for l in lines][:4]}
         print(d, status, "|", (lines[0].strip()[:200] if lines else ""))
     finally:
-        subprocess.run("git -C /repo checkout -- . && git -C /repo reset -q", shell=True)
+        subprocess.run("git -C /repo reset -q --hard HEAD", shell=True)
 if not only:
     json.dump(res, open(f"{V}/seeded/RESULTS.json", "w"), indent=1)
